@@ -8,6 +8,7 @@
 package zzvf
 
 import (
+	"strings"
 	"encoding/hex"
 	"encoding/json"
 	"fmt"
@@ -410,5 +411,285 @@ func Thorough() bool { return os.Getenv("ZZVF_TIER") == "thorough" }
 // Fresh returns whether the native twin runs in replay (true) — lets harness code skip
 // executor-only sections natively.
 func Native() bool { return true }
+
+// ---------- Fill / FillCount / AssertCarried (native twins) ----------
+
+func fillablePkg(p string) bool {
+	const m = "github.com/whatap/golib"
+	return strings.HasPrefix(p, m+"/lang/pack") || strings.HasPrefix(p, m+"/lang/step") || strings.HasPrefix(p, m+"/lang/service")
+}
+
+type nfiller struct {
+	focus, pattern, slot int
+	count                bool
+}
+
+func settable(v reflect.Value) reflect.Value {
+	if v.CanSet() {
+		return v
+	}
+	return reflect.NewAt(v.Type(), unsafe.Pointer(v.UnsafeAddr())).Elem()
+}
+
+func kindName(k reflect.Kind) string {
+	switch k {
+	case reflect.Int8:
+		return "i8"
+	case reflect.Int16:
+		return "i16"
+	case reflect.Int32:
+		return "i32"
+	case reflect.Int64:
+		return "i64"
+	case reflect.Int:
+		return "int"
+	case reflect.Uint8:
+		return "u8"
+	case reflect.Uint16:
+		return "u16"
+	case reflect.Uint32:
+		return "u32"
+	case reflect.Uint64:
+		return "u64"
+	case reflect.Uint:
+		return "uint"
+	case reflect.Float32:
+		return "f32"
+	case reflect.Float64:
+		return "f64"
+	}
+	return ""
+}
+
+func setNum(v reflect.Value, kn string) {
+	u := nextU(kn)
+	switch v.Kind() {
+	case reflect.Int, reflect.Int8, reflect.Int16, reflect.Int32, reflect.Int64:
+		switch v.Kind() {
+		case reflect.Int8:
+			v.SetInt(int64(int8(u)))
+		case reflect.Int16:
+			v.SetInt(int64(int16(u)))
+		case reflect.Int32:
+			v.SetInt(int64(int32(u)))
+		default:
+			v.SetInt(int64(u))
+		}
+	case reflect.Uint, reflect.Uint8, reflect.Uint16, reflect.Uint32, reflect.Uint64:
+		v.SetUint(u)
+	case reflect.Float32:
+		v.SetFloat(float64(math.Float32frombits(uint32(u))))
+	case reflect.Float64:
+		v.SetFloat(math.Float64frombits(u))
+	}
+}
+
+func (f *nfiller) fill(v reflect.Value, depth int) {
+	t := v.Type()
+	switch v.Kind() {
+	case reflect.Bool:
+		me := f.slot
+		f.slot++
+		if f.count {
+			return
+		}
+		if me == f.focus {
+			settable(v).SetBool(Bool())
+		} else {
+			settable(v).SetBool(f.pattern&1 == 1)
+		}
+	case reflect.String:
+		me := f.slot
+		f.slot++
+		if f.count {
+			return
+		}
+		n := 1
+		if me == f.focus {
+			n = Choose(3)
+		}
+		if n == 0 {
+			settable(v).SetString("")
+		} else {
+			settable(v).SetString(string(Bytes(n)))
+		}
+	case reflect.Int, reflect.Int8, reflect.Int16, reflect.Int32, reflect.Int64, reflect.Uint, reflect.Uint8, reflect.Uint16, reflect.Uint32, reflect.Uint64, reflect.Uintptr, reflect.Float32, reflect.Float64:
+		f.slot++
+		if f.count {
+			return
+		}
+		kn := kindName(v.Kind())
+		if kn == "" {
+			return
+		}
+		setNum(settable(v), kn)
+	case reflect.Struct:
+		if pk := t.PkgPath(); pk != "" && !fillablePkg(pk) {
+			return
+		}
+		for i := 0; i < v.NumField(); i++ {
+			f.fill(v.Field(i), depth)
+		}
+	case reflect.Ptr:
+		el := t.Elem()
+		switch el.Kind() {
+		case reflect.Struct:
+			if !fillablePkg(el.PkgPath()) || depth >= 3 {
+				return
+			}
+			nv := reflect.New(el)
+			f.fill(nv.Elem(), depth+1)
+			if f.count {
+				return
+			}
+			settable(v).Set(nv)
+		case reflect.String:
+			me := f.slot
+			f.slot++
+			if f.count {
+				return
+			}
+			n := 1
+			if me == f.focus {
+				n = Choose(4)
+				if n == 3 {
+					settable(v).Set(reflect.Zero(t))
+					return
+				}
+			}
+			s := ""
+			if n > 0 {
+				s = string(Bytes(n))
+			}
+			nv := reflect.New(el)
+			nv.Elem().SetString(s)
+			settable(v).Set(nv)
+		}
+	case reflect.Slice:
+		el := t.Elem()
+		switch {
+		case el.Kind() == reflect.Uint8:
+			me := f.slot
+			f.slot++
+			if f.count {
+				return
+			}
+			n := 1
+			if me == f.focus {
+				n = Choose(4)
+				if n == 3 {
+					settable(v).Set(reflect.Zero(t))
+					return
+				}
+			}
+			b := reflect.MakeSlice(t, n, n)
+			if n > 0 {
+				reflect.Copy(b, reflect.ValueOf(Bytes(n)))
+			}
+			settable(v).Set(b)
+		case kindName(el.Kind()) != "" || el.Kind() == reflect.String:
+			me := f.slot
+			f.slot++
+			if f.count {
+				return
+			}
+			n := 1
+			if me == f.focus {
+				switch Choose(3) {
+				case 0:
+					settable(v).Set(reflect.Zero(t))
+					return
+				case 1:
+					settable(v).Set(reflect.MakeSlice(t, 0, 0))
+					return
+				}
+				n = 2
+			}
+			sl := reflect.MakeSlice(t, n, n)
+			for i := 0; i < n; i++ {
+				if el.Kind() == reflect.String {
+					sl.Index(i).SetString(string(Bytes(1)))
+				} else {
+					setNum(sl.Index(i), kindName(el.Kind()))
+				}
+			}
+			settable(v).Set(sl)
+		default:
+			st := el
+			ptr := false
+			if el.Kind() == reflect.Ptr {
+				st = el.Elem()
+				ptr = true
+			}
+			if st.Kind() == reflect.Struct && fillablePkg(st.PkgPath()) && depth < 3 {
+				nv := reflect.New(st)
+				f.fill(nv.Elem(), depth+1)
+				if f.count {
+					return
+				}
+				sl := reflect.MakeSlice(t, 1, 1)
+				if ptr {
+					sl.Index(0).Set(nv)
+				} else {
+					sl.Index(0).Set(nv.Elem())
+				}
+				settable(v).Set(sl)
+			}
+		}
+	}
+}
+
+// Fill populates every field of *p by type, in declaration order: numeric scalars are
+// symbolic (the slot with index focus over its whole range, the others within 1..100),
+// strings / byte slices / scalar slices get one symbolic element (the focus slot ranges
+// over nil / empty / longer by Choose), bools are pattern&1 except the focus, pointers to
+// structs and slices of structs of the pack/step/service packages are allocated and
+// filled recursively (depth <= 3). Interfaces, maps, hmap and value types are left as
+// they are (the harness fills them). Returns the number of slots.
+func Fill(p interface{}, focus int, pattern int) int {
+	f := &nfiller{focus: focus, pattern: pattern}
+	f.fill(reflect.ValueOf(p).Elem(), 0)
+	return f.slot
+}
+
+// FillCount returns the number of slots Fill would visit (no input is consumed).
+func FillCount(p interface{}) int {
+	f := &nfiller{focus: -1, count: true}
+	f.fill(reflect.ValueOf(p).Elem(), 0)
+	return f.slot
+}
+
+// AssertCarried: for every (flattened) field of *p whose symbolic variables occur in the
+// encoded bytes b — i.e. the writer put it on the wire on this path — the decoded *q must
+// hold the same value (obligation label prefix+"/field/"+name). Which fields are carried
+// is executor knowledge (recorded in the replay file for the native twin).
+func AssertCarried(b []byte, p, q interface{}, prefix string) {
+	if !derived() || reflect.TypeOf(p) != reflect.TypeOf(q) {
+		Assert(false, prefix+"/same-dynamic-type")
+		return
+	}
+	carried(reflect.ValueOf(p).Elem(), reflect.ValueOf(q).Elem(), prefix+"/field/", 0)
+}
+
+func carried(pv, qv reflect.Value, prefix string, depth int) {
+	t := pv.Type()
+	for i := 0; i < t.NumField(); i++ {
+		ft := t.Field(i).Type
+		name := prefix + t.Field(i).Name
+		if ft.Kind() == reflect.Struct && fillablePkg(ft.PkgPath()) && depth < 3 {
+			carried(pv.Field(i), qv.Field(i), name+".", depth+1)
+			continue
+		}
+		if ft.Kind() == reflect.Ptr && ft.Elem().Kind() == reflect.Struct && fillablePkg(ft.Elem().PkgPath()) && depth < 3 {
+			if !pv.Field(i).IsNil() && !qv.Field(i).IsNil() {
+				carried(pv.Field(i).Elem(), qv.Field(i).Elem(), name+".", depth+1)
+				continue
+			}
+		}
+		if derived() {
+			Assert(same(pv.Field(i), qv.Field(i), map[[2]uintptr]bool{}, map[string]bool{}), name)
+		}
+	}
+}
 
 var _ = unsafe.Pointer(nil)
